@@ -24,14 +24,16 @@ def catalogue():
         for mid, meta in sorted(cat.items()):
             patch = os.path.join(HERE, "mutants", mid + ".patch")
             if os.path.exists(patch):
-                items.append({"id": mid, "patch": patch, "kind": meta["kind"], "properties": meta.get("properties", []), "edit": meta.get("edit", ""), "base": meta.get("base")})
+                items.append({"id": mid, "patch": patch, "kind": meta["kind"], "properties": meta.get("properties", []), "edit": meta.get("edit", ""), "base": meta.get("base"),
+                              "configs": meta.get("configs")})
     for d in sorted(glob.glob(os.path.join(HERE, "seeded", "*"))):
         mp = os.path.join(d, "meta.json")
         patch = os.path.join(d, "patch.diff")
         if os.path.exists(mp) and os.path.exists(patch):
             meta = json.load(open(mp))
             items.append({"id": "seeded/" + os.path.basename(d), "patch": patch, "kind": meta.get("kind", "defect"),
-                          "properties": meta.get("detected_for", meta.get("properties", [meta.get("property")])), "edit": meta.get("summary", "")})
+                          "properties": meta.get("detected_for", meta.get("properties", [meta.get("property")])), "edit": meta.get("summary", ""),
+                          "configs": meta.get("configs")})
     return items
 
 
@@ -90,7 +92,20 @@ def run_one(args):
             k = "%s|%s" % (o[0], o[1].split(":")[0])
             counts[k] = counts.get(k, 0) + 1
         COUNTS[item["id"]] = counts
-        keys = sorted(set("%s:%s" % (v["rule"], v["key"]) for v in res.violations) - base_keys)
+        allv = list(res.violations)
+        # a change that only shows in another build configuration (no debug assertions / overflow checks, no std)
+        for cfg in (item.get("configs") or []):
+            if cfg == "dev":
+                continue
+            f2 = td + "/facts-%s.json" % cfg
+            r2 = subprocess.run([os.path.join(HERE, "factgen.sh"), td + "/r", f2, cfg], capture_output=True, text=True)
+            if r2.returncode != 0:
+                return item["id"], "skipped-does-not-build", []
+            try:
+                allv.extend(analyse(Program(f2, cfg)).violations)
+            except (Inconclusive, KeyError) as e:
+                return item["id"], "inconclusive", [str(e)]
+        keys = sorted(set("%s:%s" % (v["rule"], v["key"]) for v in allv) - base_keys)
         try:
             known_ = set(k["key"] for k in json.load(open(os.path.join(HERE, "known_findings.json")))["findings"] if k["status"] == "known")
         except Exception:
